@@ -90,6 +90,15 @@ NATIVE = [
     ("Vec<Flag(bool)>", [("vec", "bool")], {}, None),
     ("[Millis(u64); 2]", [("vec", "nat64")], {}, ("array", {0: 2})),
     ("Vec<Wrap2(Millis(u64))>", [("vec", "nat64")], {}, None),
+    # more element / key types that reach the shortcuts through a wrapper
+    ("Vec<Reverse<u32>>", [("vec", "nat32")], {}, None),
+    ("Vec<Cell<u8>>", [("vec", "nat8")], {}, None),
+    ("Vec<Box<u64>>", [("vec", "nat64")], {}, None),
+    ("Vec<usize>", [("vec", "nat64")], {}, None),
+    ("Vec<u128>", [("vec", "nat")], {}, None),
+    ("BTreeMap<Key(String), u8>", [("vec", rec((0, "text"), (1, "nat8")))], {}, "map"),
+    ("Vec<WrapNat(Nat)>", [("vec", "nat")], {}, None),
+    ("Vec<(u8,)>", [("vec", rec((0, "nat8")))], {}, None),
 ]
 
 
